@@ -127,6 +127,44 @@ func c02Gen(rt *rapid.T) wProg {
 		default:
 			p.Ops = append(p.Ops, wOp{K: "get", S: s, T: topicFor(s), A: "data"})
 		}
+		// ---- multi-step histories
+		switch y := gInt(rt, 0, 99, "hist"); {
+		case y < 4 && isChan:
+			// the channel is unloaded and loaded back by a reader's chnXXX {sub}, the subscribers follow
+			for k := range p.Sess {
+				p.Ops = append(p.Ops, wOp{K: "leave", S: k, T: "g0"}, wOp{K: "leave", S: k, T: "c0"})
+			}
+			p.Ops = append(p.Ops, wOp{K: "tick", N: 4600})
+			for k := len(p.Sess) - 1; k >= 1; k-- {
+				p.Ops = append(p.Ops, wOp{K: "sub", S: k, T: "c0"})
+			}
+			p.Ops = append(p.Ops, wOp{K: "sub", S: 0, T: "g0"}, wOp{K: "pub", S: 0, T: "g0"})
+			for k := 1; k < len(p.Sess); k++ {
+				if p.Sess[k] == 1 {
+					p.Ops = append(p.Ops, wOp{K: "pub", S: k, T: "g0"})
+					break
+				}
+			}
+		case y < 8 && p.Cfg.Root:
+			// P2P: one participant unsubscribes, the topic unloads, the other one is suspended, the first
+			// comes back (the topic is loaded with one subscription missing) and publishes
+			s1 := -1
+			for k := range p.Sess {
+				if p.Sess[k] == 1 {
+					s1 = k
+					break
+				}
+			}
+			if s1 > 0 {
+				p.Ops = append(p.Ops, wOp{K: "sub", S: 0, T: "p1"}, wOp{K: "sub", S: s1, T: "p0"}, wOp{K: "leave", S: s1, T: "p0", F: true})
+				for k := range p.Sess {
+					if p.Sess[k] == 0 {
+						p.Ops = append(p.Ops, wOp{K: "leave", S: k, T: "p1"})
+					}
+				}
+				p.Ops = append(p.Ops, wOp{K: "tick", N: 4600}, wOp{K: "acc", S: 0, U: 0, A: "susp"}, wOp{K: "sub", S: s1, T: "p0"}, wOp{K: "pub", S: s1, T: "p0"})
+			}
+		}
 	}
 	return p
 }
